@@ -30,6 +30,9 @@ def variant_files(kind, k=0, pkg="pk"):
                 "wire.go": inj_hdr + "func Init() U {\n\twire.Build(NewT, NewU, NewInt)\n\treturn U{}\n}\n"}
     if kind == "N":
         return {"a.go": base}
+    if kind == "O":
+        # nothing but a test file: no injectors, no Go files of the package proper
+        return {"x_test.go": "package %s\n\nimport \"testing\"\n\nfunc TestNothing(t *testing.T) {}\n" % pkg}
     if kind == "X":
         return {"a.go": base + "\nvar bad int = \"not an int\"\n"}
     raise ValueError(kind)
@@ -160,7 +163,7 @@ PRIOR = ["absent", "same", "stale", "garbage", "noncompiling", "longstale", "dir
 
 # invocations every run starts with: several packages with output under each option (the random cases reach a
 # particular combination of option and package mix only now and then)
-C17_SCRIPTED = [("gen-header", "AAA"), ("gen-header", "AEAA"), ("gen-prefix", "AA"), ("gen", "ARA"), ("diff-header", "AA"),
+C17_SCRIPTED = [("gen", "AOA"), ("diff", "OA"), ("check", "AO"), ("gen-header", "AAA"), ("gen-header", "AEAA"), ("gen-prefix", "AA"), ("gen", "ARA"), ("diff-header", "AA"),
                 ("gen-tags", "AE"), ("gen-default", "AUA"), ("diff", "RA"), ("gen-header", "ANRA"), ("diff", "AR")]
 
 
